@@ -239,13 +239,13 @@ func (w *World) writeOrder() map[string][]string {
 
 func projectionForSlices(w *World) map[string]string { return w.projection(true) }
 
-func c14Scenario(w *World, sliced int) {
+func c14Scenario(w *World, sliced int, sliceDrift bool) {
 	s := w.Scn
 	w.setupCommon(5)
 	w.drawFaultMix("err-before", "lost-response", "crash", "compaction", "duplicate")
 	w.Cfg.Faults["drift"] = !w.Cfg.FaultFree
 	w.Cfg.Ndist = 60 + s.Intn(300, "ndist")
-	w.Scenario = GenOS(w, OSProfile{MaxSets: 3, Delegation: true, Lifecycle: true, LateCreate: true, AllLate: true, CompletePrev: true, OldestFirst: true, Sliced: sliced, NeverReady: s.Bool("never-ready")})
+	w.Scenario = GenOS(w, OSProfile{MaxSets: 3, Delegation: true, Lifecycle: true, LateCreate: true, AllLate: true, CompletePrev: true, OldestFirst: true, Sliced: sliced, NeverReady: s.Bool("never-ready"), SliceDrift: sliceDrift, Intruder: map[bool]string{true: "granular", false: ""}[sliceDrift], DriftOnly: true})
 }
 
 func planC14(w *World, spec RunSpec) {
@@ -253,7 +253,7 @@ func planC14(w *World, spec RunSpec) {
 	// mode B (monitored): sliced scenario under faults with C03-C06/C08 monitors relabelled
 	if spec.Index%2 == 0 {
 		w.Cfg.FaultFree = true
-		c14Scenario(w, 1)
+		c14Scenario(w, 1, false)
 		w.Cfg.UserOpsAtQuiescence = true
 		w.Cfg.FaultBudget = 0
 		for k := range w.Cfg.Faults {
@@ -262,7 +262,7 @@ func planC14(w *World, spec RunSpec) {
 		prefix := append([]uint32{}, w.Scn.Rec...)
 		refCfg := &Config{Property: "C14-inline", StopOn: "none", FaultFree: true, Faults: map[string]bool{}, NoFaultWeight: 200, MaxSteps: w.Cfg.MaxSteps, CalmBudget: w.Cfg.CalmBudget, Trace: w.Cfg.Trace}
 		ref := NewWorld(refCfg, choice.NewReplay(nil), choice.NewReplay(prefix))
-		c14Scenario(ref, 0)
+		c14Scenario(ref, 0, false)
 		ref.Monitors = nil
 		ref.Cfg.UserOpsAtQuiescence = true
 		ref.Cfg.FaultBudget = 0
@@ -378,7 +378,7 @@ func planC14(w *World, spec RunSpec) {
 		w.Cfg.Ndist = 150 + s.Intn(500, "ndist")
 		w.Scenario = GenOD(w, ODProfile{MaxEdits: 5, Limits: true, NeverReady: !s.Chance(1, 4, "all-ready"), Slices: true, FinalDelete: true})
 	} else {
-		c14Scenario(w, 1)
+		c14Scenario(w, 1, w.Scn.Bool("slice-drift"))
 	}
 	w.Cfg.StopOn = "C14"
 	w.StartProcesses()
